@@ -165,7 +165,24 @@ def gen(rng, tier, index):
         cfg["maxiter"] = int(rng.integers(3, 25))
         cfg["ftol"] = 0.0
         cfg["gtol"] = 0.0
-        return {"kind": "live", "problem": spec, "cfg": cfg, "restart_at": int(rng.integers(1, 6)) if rng.random() < 0.4 else 0, "_ints": ["restart_at"]}
+        plan = {"kind": "live", "problem": spec, "cfg": cfg, "restart_at": int(rng.integers(1, 6)) if rng.random() < 0.4 else 0, "_ints": ["restart_at"]}
+        if rng.random() < 0.35:
+            # an update function rewrites the gradient history in the middle of the run: the memory is
+            # filtered and the matrices rebuilt outside update_lbfgs_matrices' ordinary path
+            cfg.pop("scaler", None)
+            cfg["update"] = {"mode": "arbitrary"}
+            cfg["callback"] = {}
+            if rng.random() < 0.3:
+                cfg["maxcor"] = int(rng.integers(1, 3))
+            plan["switch"] = {
+                "mode": "arbitrary",
+                "at": int(rng.integers(2, 7)),
+                "seed": int(rng.integers(0, 2**31 - 1)),
+                "frac": float(rng.uniform(0.2, 0.95)),
+                "touch_newest": bool(rng.random() < 0.4),
+                "inplace": bool(rng.random() < 0.3),
+            }
+        return plan
     n = int(rng.integers(1, 13))
     L = int(rng.integers(1, 41))
     ops = []
@@ -406,11 +423,40 @@ def execute_live(plan, stats, keys, viol):
             w.update(live=True, update_no=len(act.up_log))
             viol.append({"clause": clause, "witness": w})
 
+    def on_use(act, X, G, mats, info):
+        # what the solver is about to compute its step with (every iteration, also the ones that
+        # follow a memory reset, a restore or a rewrite of the history)
+        stats["or.matrices_at_use_site"] += 1
+        if len(X) != len(G):
+            res = [("deques_out_of_step", {"len_X": len(X), "len_G": len(G)})]
+        elif len(X) <= 1:
+            res = []
+            if mats.use_factor and np.any(mats.W):
+                res = [("matrix_built_from_other_pairs", {"W_shape": list(mats.W.shape), "pairs": 0})]
+        else:
+            res = check_memory(X, G, mats, int(info["maxcor"]), eps, stats)
+        for clause, w in res:
+            w = dict(w)
+            w.update(live=True, where="use site", iteration=info.get("nit"))
+            viol.append({"clause": clause, "witness": w})
+
+    sw = plan.get("switch")
+    switch_info = {"fired": False}
+
+    def world():
+        if sw is None:
+            return None
+        from . import c13
+        from ..world import World
+
+        return World(rewriter=c13.make_rewriter(problem, sw, switch_info))
+
     blob = None
     if plan.get("restart_at"):
         c = dict(cfg)
         c["maxiter"] = int(plan["restart_at"])
-        P = Act(problem, c, on_update=on_update).run()
+        c["update"] = None
+        P = Act(problem, c, on_update=on_update, on_use=on_use).run()
         stats["activations"] += 1
         if P.result is not None:
             blob = Store.dumps(P.result)
@@ -418,8 +464,11 @@ def execute_live(plan, stats, keys, viol):
             pattern.append("|")
             if cfg.get("scaler") is not None:
                 cfg["scaler"] = None
-    A = Act(problem, cfg, checkpoint=None if blob is None else Store.loads(blob), on_update=on_update).run()
+    kw = {} if sw is None else {"world": world()}
+    A = Act(problem, cfg, checkpoint=None if blob is None else Store.loads(blob), on_update=on_update, on_use=on_use, **kw).run()
     stats["activations"] += 1
+    stats["fault.history_rewrite"] += 1 if switch_info.get("fired") else 0
+    stats["nj.use_site_not_observable"] += A.fired["use_site_not_observable"]
     stats["events"] += A.n_events
     resets = sum(1 for i, t in enumerate(A.ls_log) if t[2] is None)
     stats["probe.live_memory_reset"] += resets
